@@ -6,9 +6,12 @@
 //   {"op":"save"}                                 save_to_file
 //   {"op":"load","lines":[...text lines...]}      load a savefile (header + given lines) into a FRESH instance, report its state
 //   {"op":"loadraw","text":"..."}                 load arbitrary text into a fresh instance (header / garbage rejection)
+//   {"op":"serialize"}                            subtree_serialize into a large buffer (image logged) and into buffers of every capacity around 0..20 and
+//                                                 around the needed size (flush against a poisoned zone); subtree_deserialize of the image into a FRESH instance
 // After every operation: the reply / broadcast / undo events it produced (decoded) and the complete state.
 #include "app1.hpp"
 #include <rtosc/savefile.h>
+#include <rtosc/subtree-serialize.h>
 #include <rtosc/pretty-format.h>
 #include <rtosc/arg-val-itr.h>
 #include <rtosc/arg-ext.h>
@@ -123,6 +126,28 @@ static void run_script(const J &script, FILE *out) {
                 w.knum("nperm", nperm).key("outcomes").arr(); for (auto &kv : outcomes) { w.obj().knum("count", kv.second.first).key("perm").arr(); for (int i : kv.second.second) w.num(i + 1); w.end_arr().key("res").raw(kv.first).end_obj(); } w.end_arr();
                 w.key("drops").arr(); for (size_t d = 0; d < lines.size(); ++d) for (int rev = 0; rev < 2; ++rev) { std::vector<int> o2; for (size_t i = 0; i < lines.size(); ++i) if (i != d) o2.push_back((int)i); if (rev) std::reverse(o2.begin(), o2.end());
                         JW o; load_order(o2, o); w.obj().knum("dropped", (long)d + 1).kbool("reversed", rev != 0).key("res").raw(o.s).end_obj(); } w.end_arr(); }
+            else if (k == "serialize") { const size_t BIG = 8192; FlushBuf big(BIG); memset(big.p, 0xAA, BIG);
+                size_t ret = subtree_serialize((char *)big.p, BIG, &app, const_cast<Ports *>(&App::ports)); if (ret > BIG) ret = BIG;
+                w.knum("ret", (long)ret).key("bytes").arr(); for (size_t i = 0; i < ret; ++i) w.num(big.p[i]); w.end_arr();
+                // the image as its consumers see it: bounded by the BUFFER size (the buffer held 0xAA bytes before the call)
+                w.knum("nelems_buf", ret ? (long)rtosc_bundle_elements((const char *)big.p, BIG) : 0).knum("mlen_buf", ret ? (long)rtosc_message_length((const char *)big.p, BIG) : 0).kbool("is_bundle", ret && rtosc_bundle_p((const char *)big.p));
+                std::set<size_t> caps; for (size_t c = 0; c <= 20; ++c) caps.insert(c); for (long c = (long)ret - 9; c <= (long)ret + 5; ++c) if (c >= 0) caps.insert((size_t)c);
+                for (size_t frac = 1; frac < 8; ++frac) caps.insert(ret * frac / 8);
+                w.key("caps").arr();
+                for (size_t cap : caps) { FlushBuf fb(cap + 8); memset(fb.p, 0x5C, cap + 8); int h = vg_asan_hits;
+#ifdef VG_ASAN
+                    __asan_poison_memory_region(fb.p + cap, 8);
+#endif
+                    size_t r = subtree_serialize((char *)fb.p, cap, &app, const_cast<Ports *>(&App::ports));
+#ifdef VG_ASAN
+                    __asan_unpoison_memory_region(fb.p + cap, 8);
+#endif
+                    bool guard = true; for (int g = 0; g < 8; ++g) if (fb.p[cap + g] != 0x5C) guard = false;
+                    w.obj().knum("cap", (long)cap).knum("ret", (long)r).kbool("guard", guard).kbool("same", r == ret && r <= cap && memcmp(fb.p, big.p, r) == 0).knum("asan", vg_asan_hits - h).end_obj(); }
+                w.end_arr();
+                App fresh; Rec d(&fresh);
+                if (ret) subtree_deserialize((char *)big.p, BIG, &fresh, const_cast<Ports *>(&App::ports), d);
+                w.key("loaded"); state(w, fresh); }
             else if (k == "load" || k == "loadraw") { std::string text;
                 if (k == "load") { text = header(); for (auto &l : op["lines"].a) text += l.s + "\n"; w.key("lines").arr(); for (auto &l : op["lines"].a) w.str(l.s); w.end_arr(); }
                 else { text = op["text"].s; w.kstr("text", text); }
